@@ -335,6 +335,9 @@ func c09ConfigNames() (names []string, kinds map[string]string, choices []string
 }
 
 func c09Value(r *Rng, kind, name string) string {
+	if r.P(1, 14) {
+		return c09OddString(r, 4)
+	}
 	if r.P(1, 10) {
 		return PickS(r, [][]string{c09Regexps, c09TagRanges, c09Bools, c09Ints, c09Floats, c09Units}[r.Intn(6)])
 	}
@@ -455,6 +458,12 @@ func c09Profile(r *Rng, allowNoTypes bool) *profile.Profile {
 		if r.P(1, 3) {
 			m.File = PickS(r, c09Files)
 		}
+		if r.P(1, 4) {
+			m.BuildID = c09OddString(r, 5)
+		}
+		if r.P(1, 8) {
+			m.File = c09OddString(r, 5)
+		}
 		if r.P(1, 6) {
 			m.Start, m.Limit, m.Offset = r.U64(), r.U64(), r.U64()
 		}
@@ -470,7 +479,34 @@ func c09Profile(r *Rng, allowNoTypes bool) *profile.Profile {
 			}
 		}
 	}
+	for _, sm := range p.Sample {
+		if r.P(1, 10) {
+			if sm.Label == nil {
+				sm.Label = map[string][]string{}
+			}
+			sm.Label[c09OddString(r, 3)] = []string{c09OddString(r, 3), c09OddString(r, 2)}
+		}
+		if r.P(1, 14) {
+			if sm.NumLabel == nil {
+				sm.NumLabel = map[string][]int64{}
+			}
+			k := c09OddString(r, 3)
+			sm.NumLabel[k] = []int64{1, 2}
+			if r.Bool() {
+				if sm.NumUnit == nil {
+					sm.NumUnit = map[string][]string{}
+				}
+				sm.NumUnit[k] = []string{c09OddString(r, 3), c09OddString(r, 3)}
+			}
+		}
+	}
+	if r.P(1, 8) {
+		p.Comments = append(p.Comments, c09OddString(r, 5))
+	}
 	for _, st := range p.SampleType {
+		if r.P(1, 10) {
+			st.Unit = c09OddString(r, 3)
+		}
 		if r.P(1, 6) {
 			st.Unit = PickS(r, []string{"", "zz", "\xff", "B ", "kb", "GCU", "s", "%"})
 		}
@@ -479,6 +515,15 @@ func c09Profile(r *Rng, allowNoTypes bool) *profile.Profile {
 		}
 	}
 	for _, f := range p.Function {
+		if r.P(1, 10) {
+			f.Name = c09OddString(r, 4)
+		}
+		if r.P(1, 10) {
+			f.SystemName = c09OddString(r, 4)
+		}
+		if r.P(1, 10) {
+			f.Filename = c09OddString(r, 4)
+		}
 		if r.P(1, 12) {
 			f.StartLine = PickI(r, []int64{-1, 1<<63 - 1, -(1 << 63)})
 		}
@@ -588,6 +633,20 @@ func c09TagRange(c *Ctx, gen, filter string) {
 	c09Emit(c, gen, L(S("tagrange"), S(filter)), obs, regexp.MustCompile("[0-9]").MatchString(filter), "op:tagrange")
 }
 
+// c09StripPaths ships a candidate name relative to the first search-path entry it lies under
+// ([index; rest]; index -1 = under none): keeps the cases small.
+func c09StripPaths(paths []string, name string) Term {
+	for i, p := range paths {
+		if name == p {
+			return L(ZI(i), S(""))
+		}
+		if strings.HasPrefix(name, p+"/") {
+			return L(ZI(i), S(name[len(p)+1:]))
+		}
+	}
+	return L(Z(-1), S(name))
+}
+
 func c09Locate(c *Ctx, gen string, ms []*profile.Mapping) {
 	var in []Term
 	p := &profile.Profile{}
@@ -599,21 +658,27 @@ func c09Locate(c *Ctx, gen string, ms []*profile.Mapping) {
 	}
 	obj := &c09Obj{}
 	ui := &c09UI{}
-	var counts []Term
+	var names []Term
+	paths := filepath.SplitList(os.Getenv("PPROF_BINARY_PATH"))
+	input := L(S("locate"), Ss(paths), L(in...))
+	c09Announce(gen, input)
 	obs := c09Guarded(5*time.Second, func() string {
 		for _, m := range p.Mapping {
 			q := &profile.Profile{Mapping: []*profile.Mapping{m}}
 			n0 := len(obj.opened)
 			driver.VerifC09LocateBinaries(q, obj, ui)
-			counts = append(counts, ZI(len(obj.opened)-n0))
+			var rel []Term
+			for _, nm := range obj.opened[n0:] {
+				rel = append(rel, c09StripPaths(paths, nm))
+			}
+			names = append(names, L(rel...))
 		}
 		return "ok"
 	})
 	if _, isS := obs.(tS); isS {
-		obs = L(S("ok"), L(counts...))
+		obs = L(S("ok"), L(names...))
 	}
-	npaths := len(filepath.SplitList(os.Getenv("PPROF_BINARY_PATH")))
-	c09Emit(c, gen, L(S("locate"), ZI(npaths), L(in...)), obs, len(ms) > 0, "op:locate")
+	c09Emit(c, gen, input, obs, len(ms) > 0, "op:locate")
 }
 
 func c09Set(c *Ctx, gen, name, value string) {
@@ -788,7 +853,13 @@ func c09WebD(c *Ctx, gen string, p *profile.Profile, cliArgs []string, reqs []c0
 		}
 		rs = append(rs, L(S(rq.path), S(rq.rawq), L(ps...), c09PFTable(vs)))
 	}
-	in := L(S("web"), Ss(cliArgs), L(rs...), ZI(len(p.SampleType)), c09Lines(p))
+	var flagVals []string
+	for _, a := range cliArgs {
+		if k := strings.Index(a, "="); k >= 0 {
+			flagVals = append(flagVals, a[k+1:])
+		}
+	}
+	in := L(S("web"), Ss(cliArgs), L(rs...), ZI(len(p.SampleType)), c09Lines(p), c09PFTable(flagVals))
 	c09Announce(gen, in)
 	out := c09Guarded(60*time.Second, func() string { return c09ErrClass(driver.PProf(o)) })
 	c09Emit(c, gen, in, L(out, L(statuses...)), len(reqs) > 1, "op:web")
@@ -938,12 +1009,30 @@ func c09Core(c *Ctx, stream string) {
 			c09Locate(c, "locate-matrix", []*profile.Mapping{{BuildID: b, File: f}})
 		}
 	}
-	for k := 0; k < c.Budget(200, 5000); k++ {
+	for k := 0; k < c.Budget(120, 5000); k++ {
 		var ms []*profile.Mapping
 		for j := r.Intn(4); j >= 0; j-- {
 			ms = append(ms, &profile.Mapping{BuildID: PickS(r, c09BuildIDs), File: PickS(r, c09Files)})
 		}
 		c09Locate(c, "locate-random", ms)
+	}
+	// build ids and file names whose length or shape changes under normalisation, at lengths around
+	// the guard of the slice: every single atom, every pair (quick: a sixth, rotating with the seed),
+	// random strings of 3..5 atoms
+	for _, a := range c09Atoms {
+		c09Locate(c, "locate-odd-1", []*profile.Mapping{{BuildID: a, File: ""}, {BuildID: a, File: "/bin/main"}, {BuildID: "abc", File: a}})
+	}
+	for k, ab := range c09OddPairs() {
+		if c.Tier == "thorough" || k%6 == int(c.Seed%6) {
+			c09Locate(c, "locate-odd-2", []*profile.Mapping{{BuildID: ab, File: ""}, {BuildID: "0123abcd", File: ab}})
+		}
+	}
+	for k := 0; k < c.Budget(200, 8000); k++ {
+		id := c09OddString(r, 2) + c09OddString(r, 3)
+		for len(id) < 3 {
+			id += PickS(r, c09Atoms)
+		}
+		c09Locate(c, "locate-odd-n", []*profile.Mapping{{BuildID: id, File: c09OddString(r, 4)}})
 	}
 
 	case "config":
